@@ -225,6 +225,7 @@ class KafkaClient(object):
         self._disconnect_on_timeout = disconnect_on_timeout
         self._brokers = {}  # Broker-NodeID -> BrokerMetadata
         self._closing = False  # Are we shutting down/shutdown?
+        self._bootstrap_requests = set()  # Deferreds of in-progress _send_bootstrap_request() calls
         self.update_cluster_hosts(hosts)  # Store hosts and mark for lookup
         if reactor is None:
             from twisted.internet import reactor
@@ -383,6 +384,10 @@ class KafkaClient(object):
         # Close down any clients we have
         brokerclients, self.clients = self.clients, None
         self._close_brokerclients(brokerclients.values())
+        # Abort in-progress bootstrap requests: the pending connection attempt
+        # or request is cancelled and the loop stops because _closing is set.
+        for d in list(self._bootstrap_requests):
+            d.cancel()
         # clean up other outstanding operations
         self.reset_all_metadata()
         return self.close_dlist or defer.succeed(None)
@@ -1150,8 +1155,24 @@ class KafkaClient(object):
         # boostrapping.
         returnValue((yield self._send_bootstrap_request(request)))
 
-    @inlineCallbacks
     def _send_bootstrap_request(self, request):
+        """
+        Make a request using an ephemeral broker connection, see
+        `_bootstrap_request()`. The request is tracked so that `close()` can
+        abort it.
+        """
+
+        def _done(result, d):
+            self._bootstrap_requests.discard(d)
+            return result
+
+        d = self._bootstrap_request(request)
+        self._bootstrap_requests.add(d)
+        d.addBoth(_done, d)
+        return d
+
+    @inlineCallbacks
+    def _bootstrap_request(self, request):
         """Make a request using an ephemeral broker connection
 
         This routine is used to make broker-unaware requests to get the initial
@@ -1182,6 +1203,8 @@ class KafkaClient(object):
         hostports = list(self._bootstrap_hosts)
         random.shuffle(hostports)
         for host, port in hostports:
+            if self._closing:
+                break
             ep = self._endpoint_factory(self.reactor, host, port)
             try:
                 protocol = yield ep.connect(_bootstrapFactory)
@@ -1205,6 +1228,8 @@ class KafkaClient(object):
             finally:
                 protocol.transport.loseConnection()
 
+        if self._closing:
+            raise CancelledError(message="Cancelled {}: {} has been closed".format(_ReprRequest(request), self))
         raise KafkaUnavailableError("Failed to bootstrap from hosts {}".format(hostports))
 
     @inlineCallbacks
